@@ -18,7 +18,8 @@ EXHAUSTIVE = False
 EXHAUSTIVE_NOTE = ""
 ASSUMPTIONS = ["caller slices have cap = len", "the text of the fmt.Errorf error is only compared through its PID list",
                "ComputeCRC is compared through the executable model Pmt.crc_model (its equality with CRC-32/MPEG-2 is C13)"]
-PARTIAL = "see Properties/C14.v: names ending in _partial"
+PARTIAL = ("no clause is partial; the CRC clause is relative to the executable model of gots.ComputeCRC (C13 proves that function), "
+           "the error is compared by class and PID list, not by text; 'inputs not modified' is a goexec snapshot check only (aliasing)")
 
 
 def pid_lists(rng, c, pmt_pid):
